@@ -151,8 +151,8 @@ def classify(ftype, value, tag=None):
 
 
 SAMPLES = {
-    "INT": ["0", "1", "-1", "42", "007", "-120000"],
-    "SEQNUM": ["1", "2", "17", "4096"],
+    "INT": ["0", "1", "-1", "42", "007", "-120000", "9" * 40, "-" + "1" * 200],
+    "SEQNUM": ["1", "2", "17", "4096", "1000000000", "9223372036854775807", "1" * 100],
     "NUMINGROUP": ["1", "2", "3"],
     "DAYOFMONTH": ["1", "15", "31"],
     "BOOLEAN": ["Y", "N"],
@@ -163,11 +163,11 @@ SAMPLES = {
     "COUNTRY": ["US", "DE"],
     "CURRENCY": ["USD", "EUR"],
     "EXCHANGE": ["XNYS", "XLON"],
-    "LOCALMKTDATE": ["20230921", "19991231"],
-    "UTCDATEONLY": ["20230921", "20240229"],
+    "LOCALMKTDATE": ["20230921", "19991231", "09991231", "00010101"],
+    "UTCDATEONLY": ["20230921", "20240229", "01000615"],
     "UTCTIMEONLY": ["14:00:00", "23:59:59.999", "00:00:00.000"],
-    "UTCTIMESTAMP": ["20230921-14:00:00", "20230921-14:00:00.123", "20240229-23:59:59.999"],
-    "MONTHYEAR": ["202309", "20230921", "202309w1", "202312w5"],
+    "UTCTIMESTAMP": ["20230921-14:00:00", "20230921-14:00:00.123", "20240229-23:59:59.999", "09990101-00:00:00", "00011231-23:59:59.000"],
+    "MONTHYEAR": ["202309", "20230921", "202309w1", "202312w5", "099912", "00010101"],
     "DATA": ["abc"],
     "LENGTH": ["3"],
 }
